@@ -22,6 +22,7 @@ func init() {
 func c13(c *Ctx) {
 	c.haltLockSetFollowsMode("holder")
 	c.postApplyVerifiedBeforePublish("forwarded")
+	c.journalPersistCommitError("forward/journal-write")
 	c.Before("local-commit/Drop/position-read-under-lock", "litefs.(*DB).Drop", c.P.PlainCalls("litefs.(*DB).Pos", "litefs.(*DB).PageN"), c.P.PlainCalls("litefs.(*DB).AcquireWriteLock"), 2,
 		"Drop reads the position (and page count) its transaction builds on only after it holds the write lock", "a drop that waited behind a halt lock would build on the pre-halt position: its file overwrites the replica's acknowledged forwarded transaction of that TXID")
 	{
